@@ -554,14 +554,59 @@ def every_row_solved(rep, res, entry):
                          f"the intensity 0 (below any positive lower bound, and not the fitted optimum)")
 
 
+def shifted_variable_bounds(rep, res, entry, rule="R-QTY"):
+    """the intensities handed back are the value of `v + c` (a variable re-parameterised above an offset c, e.g. the lower bounds): a
+    bound written on the bare variable v then bounds the intensity MINUS c — its other side must carry c too (v ≤ ub − c), or the
+    bound is written on the shifted expression itself"""
+    heap = res.heap
+    items = ret_items(res)
+    if not items:
+        return
+    want = R.sol_ids(items[0])
+    shifts = {}
+    for ev in res.events("value_load"):
+        b = ev.d["base"]
+        a = b.tag("atom")
+        if not a or a[0] not in ("add", "sub") or len(a[1]) != 2:
+            continue
+        leaf = [o for o in a[1] if o.tag("cvx") == "leaf" and any(heap.get(r_) is not None and heap[r_].kind == "cvxvar" for r_ in o.flat().refs)]
+        const_ = [o for o in a[1] if not o.tag("cvx")]
+        if len(leaf) != 1 or len(const_) != 1:
+            continue
+        vid = [r_ for r_ in leaf[0].flat().refs if heap.get(r_) is not None and heap[r_].kind == "cvxvar"]
+        if not vid or vid[0] not in want:
+            continue
+        od = {o.split("|")[0] for o in const_[0].flat().data}
+        if od:
+            shifts[vid[0]] = (od, ev)
+    for vid, (od, sev) in shifts.items():
+        for ev in res.events("cvx_constraint"):
+            c = ev.d["val"]
+            l_, r_ = c.tag("lhs"), c.tag("rhs")
+            if l_ is None or r_ is None:
+                continue
+            for bare, other in ((l_, r_), (r_, l_)):
+                if bare.tag("cvx") == "leaf" and vid in bare.flat().refs and not bare.tag("atom"):
+                    deps = {o.split("|")[0] for o in R.closure_deps(res, other)}
+                    if not deps or other.tag("cvx") in ("leaf", "expr"):
+                        continue
+                    rep.check(rule, "a bound on a re-parameterised variable accounts for the offset", bool(od & deps), where=ev.loc,
+                              construct=ev.text()[:80], entry=entry, config=res.config,
+                              msg=f"the returned intensities are the variable plus an offset computed from {sorted(od)}, but this constraint bounds "
+                                  f"the bare variable by a quantity that does not involve {sorted(od)} (it depends on {sorted(deps)}): the intensity "
+                                  f"itself is bounded by that quantity PLUS the offset")
+
+
 def hygiene(rep, res, entry, shape=True, purity=True, dtype=True, value=True, refresh=True):
     """Rules that apply to every fitting entry point."""
     every_row_solved(rep, res, entry)
+    shifted_variable_bounds(rep, res, entry)
     variable_sign(rep, res, entry)
     R.rule_no_global_state(rep, res, entry)
     R.rule_extent_coincidence(rep, res, entry)
     R.rule_block_cover(rep, res, entry)
     R.rule_display_neutral(rep, res, entry)
+    R.rule_iter_arrays_per_sample(rep, res, entry)
     R.rule_count_denominator(rep, res, entry)
     R.rule_dtype_casts(rep, res, entry)
     R.rule_row_pick(rep, res, entry)
